@@ -35,10 +35,14 @@ from dissect.cobaltstrike import c2
 from dissect.cobaltstrike.c_c2 import BeaconMetadata
 
 from . import common as C
+from . import pyuval_t07
 
 ID = "C06"
 DRIVER = "drv_c06"
 GEN = ["c2struct"]
+GEN += ["py_c2m"]
+EXTRA_PROP_FILES = ["Props/C06Gen.lean"]
+G_STREAMS = ("dumps", "parse", "enc", "dec", "rt", "hist")
 STREAMS = {
     "dumps": {"relevant": True, "desc": "BeaconMetadata(**fields).dumps() / len()"},
     "parse": {"relevant": True, "desc": "BeaconMetadata(bytes)"},
@@ -48,6 +52,16 @@ STREAMS = {
     "derive": {"relevant": True, "desc": "derive_aes_hmac_keys, BeaconKeys.from_aes_rand / from_beacon_metadata"},
     "hist": {"relevant": True, "desc": "call histories in one process: same blob under different keys, corrupted copies, the same "
                                        "metadata object encrypted repeatedly and after mutation, repeated key derivations"},
+    "g-dumps": {"relevant": False, "desc": "the run-time operations len() / dumps() of the untyped translator (PyU_T07.lean over the generated layout) vs cstruct, on every case of dumps"},
+    "g-parse": {"relevant": False, "desc": "the run-time operation BeaconMetadata(bytes) of the untyped translator vs cstruct, on every case of parse"},
+    "g-enc": {"relevant": False, "desc": "encrypt_metadata TRANSLATED from its source (Gen/PyC2M.lean; cipher.encrypt = toy primitives) vs the function, on every case of enc"},
+    "g-dec": {"relevant": False, "desc": "decrypt_metadata TRANSLATED from its source (cipher.decrypt = the primitive result on the line) vs the function, on every case of dec"},
+    "g-rt": {"relevant": False, "desc": "translated decrypt_metadata(encrypt_metadata(m)) vs the functions, on every case of rt"},
+    "g-hist": {"relevant": False, "desc": "every history of hist with all library calls through the translated definitions (the caller's object threaded as a value)"},
+    "g-arg": {"relevant": False, "desc": "translated encrypt_metadata / len / dumps on arguments of other kinds: metadata objects whose attributes hold None / bool / "
+                                         "negative / huge ints / bytes / str / lists, and arguments that are no metadata objects at all"},
+    "pyu": {"relevant": False, "desc": "the operations of the translator's run-time library added for decrypt/encrypt_metadata (PyU_T07.lean: struct parse / dumps / len, "
+                                       "format 0<w>x; attribute read / assignment on structure instances) vs CPython / dissect.cstruct on random operands of all kinds"},
 }
 TRUSTED = [
     "tools/harness/c06.py generators, adapters and struct-based oracle; tools/gen/c2struct.py; line protocol parsing in "
@@ -57,6 +71,10 @@ TRUSTED = [
     "wrong-length blobs raise ValueError, decrypt raises only ValueError, |sha256| = 32); a toy instance proves them satisfiable",
     "dissect.cstruct 4.7 struct reading/writing is modelled (Model/C06.lean dumpsMetadata/parseMetadata), not verified; "
     "exercised directly by the dumps/parse streams",
+    "tools/py2leanu.py + tools/gen/py_c2m.py (source text of decrypt_metadata / encrypt_metadata -> Gen/PyC2M.lean) and the run-time library "
+    "Model/PyU.lean, PyU_T02.lean, PyU_T07.lean (semantics of the Python / cstruct operations the translation emits); Props/C06Gen.lean proves the "
+    "translated definitions equal to the hand-written model; the g-* streams run the translated definitions and the pyu stream the run-time "
+    "operations against the real functions / CPython on every run",
 ]
 ASSUMPTIONS = [
     "field values are non-negative Python ints, aes_rand/info are bytes (negative ints also raise struct.error but are outside the Nat model)",
@@ -219,6 +237,39 @@ def boundary_values(w):
 
 
 def gen(tier, rng, shard, nshards):
+    """every case of the hand-model streams is also run through the definitions translated from the source (g-*)"""
+    for stream, line in gen0(tier, rng, shard, nshards):
+        yield stream, line
+        if stream in G_STREAMS:
+            yield "g-" + stream, "g" + line
+    thorough = tier == "thorough"
+    for _ in range((6000 if thorough else 600) // nshards + 1):
+        r = rng.random()
+        if r < 0.45:
+            v = pyuval_t07.rmeta(rng)
+            if not pyuval_t07._meta_ok(v):
+                continue
+        elif r < 0.6:
+            v = pyuval_t07.rmeta(rng, clean=True)
+        else:
+            v = pyuval_t07.value(rng)
+            if isinstance(v, BeaconMetadata) and not pyuval_t07._meta_ok(v) or not isinstance(v, BeaconMetadata) and pyuval_t07._has_meta(v):
+                continue
+        try:
+            tok = pyuval_t07.pshow(v)
+        except RuntimeError:
+            continue
+        if rng.random() < 0.6:
+            yield "g-arg", f"garg enc {rng.choice([128, 256])} {tok}"
+        else:
+            yield "g-arg", f"garg dumps {tok}"
+    for _ in range((60000 if thorough else 6000) // nshards + 1):
+        line = pyuval_t07.case(rng)
+        if line is not None:
+            yield "pyu", line
+
+
+def gen0(tier, rng, shard, nshards):
     thorough = tier == "thorough"
     seed = int(os.environ.get("VERIF_SEED", "0"))
     k = 0
@@ -660,7 +711,25 @@ def split_steps(line):
     return steps
 
 
+def _garg(w, line):
+    if w[1] == "dumps":
+        x = pyuval_t07.pparse(w[2])
+        n = len(x)
+        return f"ok {pyuval_t07.pshow(n)} {pyuval_t07.pshow(x.dumps())}"
+    kid = {"128": "k1024a", "256": "k2048a"}[w[2]]
+    x = pyuval_t07.pparse(w[3])
+    blob = _encrypt(x, kid, line)
+    pt = PKCS1_v1_5.new(key(kid)).decrypt(blob, None)
+    return f"ok {len(blob)} {int(x.size)} {C.hx(pt)} {pyuval_t07.pshow(x)}"
+
+
 def impl(stream, line):
+    if stream == "g-arg":
+        return _garg(line.split(), line)
+    if stream == "pyu":
+        return pyuval_t07.run(line)
+    if stream.startswith("g-"):
+        return impl(stream[2:], line[1:])       # the same real functions
     if stream == "hist":
         # all steps in this one invocation: same process, same module state, same caller-side object
         obj = None
@@ -768,6 +837,8 @@ def _expected_encrypt(op, kb, f):
 
 
 def oracle(stream, line, out):
+    if stream.startswith("g-") or stream == "pyu":
+        return None
     if stream == "hist":
         obj = None
         exp = []
@@ -791,6 +862,12 @@ def oracle(stream, line, out):
 
 
 def nontrivial(stream, line, out):
+    if stream == "pyu":
+        return not out.startswith("exc ")
+    if stream == "g-arg":
+        return True
+    if stream.startswith("g-"):
+        return nontrivial(stream[2:], line[1:], out)
     w = line.split()
     if stream in ("dumps", "enc", "rt"):
         toks = w[1:] if stream == "dumps" else w[3:]
@@ -811,6 +888,12 @@ def nontrivial(stream, line, out):
 # --------------------------------------------------------------------------------------------
 
 def shrink(stream, line):
+    if stream in ("pyu", "g-arg"):
+        return
+    if stream.startswith("g-"):
+        for cand in shrink(stream[2:], line[1:]):
+            yield "g" + cand
+        return
     w = line.split()
     if stream in ("dumps", "parse"):
         yield from C.shrink_tokens(line)
